@@ -212,6 +212,7 @@ func (p *Parser) parseBuffer(buf []byte, last bool) error {
 		case skipNewline:
 			p.line++
 			p.noff = off
+			i = 0 // nothing to skip when the newline ends the buffer
 			for i, b = range buf[off+1:] {
 				if spaceMap[b] != skipChar {
 					break
@@ -344,6 +345,9 @@ func (p *Parser) parseBuffer(buf []byte, last bool) error {
 			p.num.Reset()
 			p.mode = digitMap
 			p.num.I = uint64(b - '0')
+			if len(buf) <= off+1 { // last byte of the buffer, nothing to scan ahead
+				continue
+			}
 			for i, b = range buf[off+1:] {
 				if digitMap[b] != numDigit {
 					break
@@ -426,6 +430,10 @@ func (p *Parser) parseBuffer(buf []byte, last bool) error {
 				p.mode = dotMap
 				continue
 			}
+			if len(buf) <= off+1 { // last byte of the buffer, nothing to scan ahead
+				p.mode = dotMap
+				continue
+			}
 			for i, b = range buf[off+1:] {
 				if digitMap[b] != numDigit {
 					break
@@ -476,6 +484,7 @@ func (p *Parser) parseBuffer(buf []byte, last bool) error {
 			p.line++
 			p.noff = off
 			p.mode = afterMap
+			i = 0 // nothing to skip when the newline ends the buffer
 			for i, b = range buf[off+1:] {
 				if spaceMap[b] != skipChar {
 					break
